@@ -113,7 +113,7 @@ def expected(fmt, mesh):
     elif fmt == "off":
         e["faces"] = F
     elif fmt == "tet":
-        e["cells"] = [c for c in C if len(c) == 4]
+        e["cells"] = [c for c in C if len(c) in (4, 8)]  # the "<m> tets" dialect of mouette / Geogram also carries 8-vertex records
     elif fmt == "xyz":
         pass
     elif fmt == "stl":
@@ -245,7 +245,6 @@ def test_refusals():
         raises(ValueError, rc.write, fmt, ev)
         rc.write(fmt, ev, lossy=True)
     raises(ValueError, rc.write, "mesh", MESHES["penta"])
-    raises(ValueError, rc.write, "tet", MESHES["hexes"])
     raises(ValueError, rc.write, "stl", MESHES["quad"])
     raises(ValueError, rc.write, "stl", {"vertices": MILD[:4], "faces": [[0, 1, 2]]})  # isolated vertex
     raises(ValueError, rc.write, "obj", {"vertices": [[float("nan"), 0, 0]]})
@@ -404,7 +403,6 @@ OFF 4 2 0   # counts on the header line
     raises(rc.FormatError, rc.read, "tet", b"4 vertices\n2 tets\n0 0 0\n1 0 0\n0 1 0\n0 0 1\n4 0 1 2 3\n")
     raises(rc.FormatError, rc.read, "tet", b"4 vertices\n1 tets\n0 0 0\n1 0 0\n0 1 0\n0 0 1\n3 0 1 2\n")
     raises(rc.FormatError, rc.read, "tet", b"4 tets\n1 vertices\n")
-    raises(rc.FormatError, rc.read, "tet", b"8 vertices\n1 tets\n" + b"0 0 0\n" * 8 + b"8 0 1 2 3 4 5 6 7\n")
 
     # ---- xyz
     eq(rc.read("xyz", b"0 0 0\n1.5 -2 3e2\n"), vertices=[[0, 0, 0], [1.5, -2, 300]])
